@@ -298,8 +298,10 @@ pub fn run_c10(ctx: &Ctx) -> i32 {
 
 // (white space is what `char::is_whitespace` says: U+00A0, U+2003, U+0085 and the vertical tab U+000B
 // count, so a key or type made of them is blank)
-const C13_STRINGS: [&str; 29] = ["", " ", "\t\n", "_", "_a", " _a", "a_", "a", " a ", "__", "é", "_é", "ab", "a ", "-", "  ", "x", " x ", "éé", "a_b", " ab ", "\n_k",
-    "\u{a0}", "\u{2003}_x", "\u{a0}e", "\u{b}x\u{b}", "\u{85}ab\u{2003}", "\u{3000}", "a\u{a0}b"];
+const C13_STRINGS: [&str; 32] = ["", " ", "\t\n", "_", "_a", " _a", "a_", "a", " a ", "__", "é", "_é", "ab", "a ", "-", "  ", "x", " x ", "éé", "a_b", " ab ", "\n_k",
+    "\u{a0}", "\u{2003}_x", "\u{a0}e", "\u{b}x\u{b}", "\u{85}ab\u{2003}", "\u{3000}", "a\u{a0}b",
+    // the one reserved key the simulator writes itself, and its neighbours
+    "_contract_address", " _contract_address ", "_contract_addr"];
 const C13_POS: [&str; 7] = ["attr-key", "attr-value", "event-attr-key", "event-attr-value", "event-type", "attr-key-with-empty-value", "event-attr-key-with-blank-value"];
 
 fn c13_node(pos: usize, s: &str, idx: usize) -> Node {
